@@ -246,6 +246,12 @@ type BoundedSpec struct {
 }
 
 var boundedSpecs = map[string][]BoundedSpec{
+	"C07": {{Name: "next/lemma/token-stream-pin", File: "c07_htmlpin_test.go.txt", Test: "TestZZBoundedHTMLPin",
+		What:  "token stream (type, offset, length) of the five start contexts and the five verdicts, for every concatenation of up to <bound> fragments from a 28-piece vocabulary of HTML-significant text, equal the values pinned from the pinned tree in /verif/baseline/htmlpin.gz - a regression pin, not a specification",
+		Quick: 4, Thorough: 5}},
+	"C06": {{Name: "fold/lemma/rewrite-rules-pin", File: "c06_foldpin_test.go.txt", Test: "TestZZBoundedFoldPin",
+		What:  "folding rewrite rules (no contract states them): fingerprint and verdict of every sequence of up to <bound> words from a 30-word vocabulary (every token class, and the words the rules test by name) equal the values pinned from the pinned tree in /verif/baseline/foldpin.gz - a regression pin, not a specification",
+		Quick: 4, Thorough: 5}},
 	"C14": {{Name: "IsSQLi/lemma/plain-shapes", File: "c14_shapes_test.go.txt", Test: "TestZZBoundedPlainShapes",
 		What:  "second clause of C14 (e-mail-like, decimal and punctuated-sentence shapes built from non-keyword words) and a non-vacuity sample of the proved core: all sequences of up to <bound> words/numbers from a 25-item vocabulary, and 8 shapes over all word pairs, on the real IsSQLi",
 		Quick: 3, Thorough: 4}},
@@ -277,7 +283,7 @@ func (pr *Program) runBounded(prop, tier string) []boundedResult {
 		if tier == "thorough" {
 			bound = bs.Thorough
 		}
-		o, _ := runOverlayTest(pr.RepoDir, map[string]string{"zz_verif_bounded_test.go": string(src)}, "^"+bs.Test+"$", []string{fmt.Sprintf("VERIF_BOUND=%d", bound)}, 600)
+		o, _ := runOverlayTest(pr.RepoDir, map[string]string{"zz_verif_bounded_test.go": string(src)}, "^"+bs.Test+"$", []string{fmt.Sprintf("VERIF_BOUND=%d", bound), "VERIF_DIR=" + verifDir}, 900)
 		r := boundedResult{Spec: bs, Bound: bound}
 		for _, l := range strings.Split(o, "\n") {
 			if strings.HasPrefix(l, "BOUNDED-OK") {
